@@ -282,12 +282,545 @@ theorem add_then_scale (a b c c' : Hist) (w I : Q) (t : Tol) (h : add a b w t = 
 /-- rescaling a sum: the recomputed scale of `a.add(b, w)` after `scale(s)` is `s` -/
 theorem add_then_rescale (a b c c' : Hist) (w s : Q) (t : Tol) (h : add a b w t = .ok c) (hs : setScale c s = .ok c') :
     getScale c' true = .ok ({ c' with scale := some s }, s) :=
-  hist_scale_recomputed c c' s hs (by
+  hist_scale_recomputed_partial c c' s hs (by
     intro x hx
     rw [(add_cellwise a b c w t h).2.2.2.2.2] at hx
     cases hx)
 
 example : ((add { exHist with scale := some 5 } { exHist with bins := .node [.leaf 3, .leaf 1], scale := some 5 } 2
     ⟨0, 0⟩).toOption.bind (fun c => (getScale c false).toOption)).map (·.2) = some 15 := by decide +kernel
+
+/-! ## Every format of one-dimensional edges (`[x0, …]` and `[[x0, …]]`) -/
+
+/-- the edges are not one axis nested in a list -/
+def Edges.NotNested1 (e : Edges) : Prop := ∀ ax, e ≠ .nested [ax]
+
+theorem mkHistU_eq (e : Edges) (b : Option (NArr Q)) (i : Q) (hn : e.NotNested1) : mkHistU e b i = mkHist e b i := by
+  unfold mkHistU mkHist
+  cases hc : checkEdgesIncreasing e with
+  | error er => simp [bind, Except.bind]
+  | ok u =>
+    simp only [bind, Except.bind]
+    cases e with
+    | flat ax => simp [Edges.axes] <;> rfl
+    | nested axs =>
+      cases axs with
+      | nil => simp [Edges.axes] <;> rfl
+      | cons a0 rest =>
+        cases rest with
+        | nil => exact absurd rfl (hn a0)
+        | cons a1 r => simp [Edges.axes] <;> rfl
+
+theorem add_eq_addWith : add = addWith mkHist := rfl
+
+theorem addU_eq (a b : Hist) (w : Q) (t : Tol) (hn : a.edges.NotNested1) : addU a b w t = add a b w t := by
+  have : ∀ (nb : NArr Q), mkHistU a.edges (some nb) 0 = mkHist a.edges (some nb) 0 := fun nb => mkHistU_eq _ _ _ hn
+  simp only [addU, add_eq_addWith, addWith, this]
+
+theorem toCsvHistU_eq (h : Hist) (toCsv : Bool) (ctxDup : Option Bool) (elemDup : Bool) (hn : h.edges.NotNested1) :
+    toCsvHistU h toCsv ctxDup elemDup = toCsvHist h toCsv ctxDup elemDup := by
+  unfold toCsvHistU toCsvHist
+  cases he : h.edges with
+  | flat ax => simp [Edges.axes] <;> rfl
+  | nested axs =>
+    cases axs with
+    | nil => simp [Edges.axes] <;> rfl
+    | cons a0 rest =>
+      cases rest with
+      | nil => exact absurd he (hn a0)
+      | cons a1 r =>
+        cases r with
+        | nil => simp [Edges.axes] <;> rfl
+        | cons a2 r' => simp [Edges.axes] <;> rfl
+
+/-- what `histogram(edges, bins=b)` stores, for every format of the edges -/
+theorem mkHistU_some (e : Edges) (b : NArr Q) (i : Q) (nh : Hist) (hk : mkHistU e (some b) i = .ok nh) :
+    nh.edges = e ∧ nh.bins = b ∧ nh.scale = none ∧ nh.nOut = 0 := by
+  unfold mkHistU at hk
+  cases hce : checkEdgesIncreasing e with
+  | error er => simp [hce, bind, Except.bind] at hk
+  | ok u =>
+    simp only [hce, bind, Except.bind] at hk
+    split at hk
+    · simp at hk
+    · cases hl : lenBins b with
+      | error er => simp [hl] at hk
+      | ok n =>
+        simp only [hl] at hk
+        split at hk
+        · simp at hk
+        · simp [pure, Except.pure] at hk
+          subst hk
+          exact ⟨rfl, rfl, rfl, rfl⟩
+
+/-- `add_cellwise` for any constructor that stores what it is given -/
+theorem addWith_cellwise (mk : Edges → Option (NArr Q) → Q → Except Err Hist)
+    (hmk : ∀ e b i nh, mk e (some b) i = .ok nh → nh.edges = e ∧ nh.bins = b ∧ nh.scale = none ∧ nh.nOut = 0)
+    (a b c : Hist) (w : Q) (t : Tol) (h : addWith mk a b w t = .ok c) :
+    a.nbins = b.nbins ∧ iscloseEdges t a.edges b.edges = .ok true ∧
+      c.edges = a.edges ∧ c.bins = zipWith (fun x y => x + y * w) a.bins b.bins ∧
+      c.nOut = a.nOut + b.nOut * w ∧ c.scale = none := by
+  by_cases hn : a.nbins = b.nbins
+  case neg => simp [addWith, hn, bind, Except.bind, pure, Except.pure] at h
+  cases hc : iscloseEdges t a.edges b.edges with
+  | error e => simp [addWith, hn, hc, bind, Except.bind] at h
+  | ok cl =>
+    cases cl with
+    | false => simp [addWith, hn, hc, bind, Except.bind, pure, Except.pure] at h
+    | true =>
+      have key : ∃ ob nb nh, weightedBins b w = .ok ob ∧ mdMap2 (· + ·) a.bins ob = .ok nb ∧
+          mk a.edges (some nb) 0 = .ok nh ∧ c = { nh with nOut := a.nOut + b.nOut * w } := by
+        by_cases hw : w = 1
+        · subst hw
+          simp only [addWith, hn, hc, bind, Except.bind, pure, Except.pure, ne_eq, not_true_eq_false, if_false,
+            Bool.not_true, Bool.false_eq_true] at h
+          cases hm : mdMap2 (· + ·) a.bins b.bins with
+          | error e => simp [hm] at h
+          | ok nb =>
+            cases hk : mk a.edges (some nb) 0 with
+            | error e => simp [hm, hk] at h
+            | ok nh =>
+              simp [hm, hk] at h
+              exact ⟨b.bins, nb, nh, by simp [weightedBins, pure, Except.pure], hm, hk, by rw [← h]; simp⟩
+        · simp only [addWith, hn, hc, bind, Except.bind, pure, Except.pure, ne_eq, not_true_eq_false, if_false,
+            Bool.not_true, Bool.false_eq_true, hw, not_false_eq_true, if_true] at h
+          cases ho : mdMap (fun val => val * w) b.bins with
+          | error e => simp [ho] at h
+          | ok ob =>
+            cases hm : mdMap2 (· + ·) a.bins ob with
+            | error e => simp [ho, hm] at h
+            | ok nb =>
+              cases hk : mk a.edges (some nb) 0 with
+              | error e => simp [ho, hm, hk] at h
+              | ok nh =>
+                simp [ho, hm, hk] at h
+                exact ⟨ob, nb, nh, by simp [weightedBins, hw, ho], hm, hk, h.symm⟩
+      obtain ⟨ob, nb, nh, ho, hm, hk, rfl⟩ := key
+      have hnb := weightedBins_zip a b w ob nb ho hm
+      have hst := hmk _ _ _ _ hk
+      exact ⟨hn, rfl, hst.1, by rw [← hnb]; exact hst.2.1, rfl, hst.2.2.1⟩
+
+/-- `add_cellwise` for every format of the edges (also `[[x0, …]]`): when `a.add(b, w)` returns, the numbers of
+bins agree, the edges are close, the sum has `a`'s edges, the cell-wise bins `a + b*w`, `n_out_of_range`
+`a + b*w` and no stored scale.  All inputs. -/
+theorem addU_cellwise (a b c : Hist) (w : Q) (t : Tol) (h : addU a b w t = .ok c) :
+    a.nbins = b.nbins ∧ iscloseEdges t a.edges b.edges = .ok true ∧
+      c.edges = a.edges ∧ c.bins = zipWith (fun x y => x + y * w) a.bins b.bins ∧
+      c.nOut = a.nOut + b.nOut * w ∧ c.scale = none :=
+  addWith_cellwise mkHistU mkHistU_some a b c w t h
+
+/-- a histogram given bins of the shape of its (checked) edges, in any format -/
+structure Hist.ValidU (h : Hist) : Prop where
+  wf : h.WF
+  edges_ok : checkEdgesIncreasing h.edges = .ok ()
+
+/-- histograms with equal edges (any format) are always added -/
+theorem addU_defined (a b : Hist) (w : Q) (t : Tol) (ha : a.ValidU) (hb : b.ValidU) (he : a.edges = b.edges)
+    (hr : 0 ≤ t.rel) : ∃ c, addU a b w t = .ok c := by
+  have hn : a.nbins = b.nbins := by simp [Hist.nbins, he]
+  have hc : iscloseEdges t a.edges b.edges = .ok true := by rw [← he]; exact iscloseEdges_self t hr _
+  obtain ⟨e0, rest, hax⟩ : ∃ e0 rest, a.edges.axes = e0 :: rest := by
+    cases hax : a.edges.axes with
+    | nil => exact absurd hax ha.wf.1
+    | cons e es => exact ⟨e, es, rfl⟩
+  have hdims : a.nbins = (e0.length - 1) :: nbinsOf rest := by simp [Hist.nbins, nbinsOf, hax]
+  have hsa : HasShape ((e0.length - 1) :: nbinsOf rest) a.bins := hdims ▸ ha.wf.2
+  have hsb : HasShape ((e0.length - 1) :: nbinsOf rest) b.bins := by rw [← hdims, hn]; exact hb.wf.2
+  obtain ⟨ob, ho, hso⟩ : ∃ ob, weightedBins b w = .ok ob ∧ HasShape ((e0.length - 1) :: nbinsOf rest) ob := by
+    unfold weightedBins
+    by_cases hw : w = 1
+    · exact ⟨b.bins, by simp [hw, pure, Except.pure], hsb⟩
+    · exact ⟨map (fun val => val * w) b.bins, by simp [hw, mdMap_ok _ _ _ b.bins hsb], hasShape_map _ _ _ hsb⟩
+  have hm := mdMap2_ok (· + ·) _ _ a.bins ob hsa hso
+  have hsz := hasShape_zipWith (· + ·) _ a.bins ob hsa hso
+  obtain ⟨nh, hk⟩ : ∃ nh, mkHistU a.edges (some (zipWith (· + ·) a.bins ob)) 0 = .ok nh := by
+    unfold mkHistU
+    simp only [ha.edges_ok, bind, Except.bind, hax]
+    cases hz : zipWith (· + ·) a.bins ob with
+    | leaf v => rw [hz] at hsz; simp [HasShape] at hsz
+    | node xs =>
+      rw [hz] at hsz
+      simp only [HasShape] at hsz
+      exact ⟨{ edges := a.edges, bins := .node xs, nOut := 0, scale := none },
+        by simp [lenBins, hsz.1, pure, Except.pure]⟩
+  refine ⟨{ nh with nOut := a.nOut + b.nOut * w }, ?_⟩
+  by_cases hw : w = 1
+  · subst hw
+    have : ob = b.bins := by simp [weightedBins, pure, Except.pure] at ho; exact ho.symm
+    subst this
+    simp [addU, addWith, hn, hc, hm, hk, bind, Except.bind, pure, Except.pure]
+  · have : mdMap (fun val => val * w) b.bins = .ok ob := by simpa [weightedBins, hw] using ho
+    simp [addU, addWith, hn, hc, hw, this, hm, hk, bind, Except.bind, pure, Except.pure]
+
+/-- the nested one-dimensional example `histogram([[0, 1, 3]], bins=[1, 2])` -/
+def exHistN : Hist := { exHist with edges := .nested [[0, 1, 3]] }
+
+example : (addU exHistN exHistN 2 ⟨0, 0⟩).toOption.map (fun c => (values c.bins, c.edges)) =
+    some ([3, 6], .nested [[0, 1, 3]]) := by decide +kernel
+example : exHistN.ValidU := ⟨⟨by simp [exHistN, Edges.axes], by simp [exHistN, exHist, Hist.nbins, nbinsOf, Edges.axes, HasShape]⟩,
+  ok_of_toOption _ _ (by decide +kernel)⟩
+
+/-- CSV rows of a one-dimensional histogram in either format of the edges (`csv_rows_1d` for `[[x0, …]]` too) -/
+theorem csv_rows_1d_any (nested : Bool) (xs vs : List Q) (xLast vLast : Q) (hlen : xs.length = vs.length + 1) (nOut : Q)
+    (sc : Option Q) (ctxDup : Option Bool) (elemDup : Bool) :
+    toCsvHistU { edges := if nested then .nested [xs ++ [xLast]] else .flat (xs ++ [xLast]),
+                 bins := bins1d (vs ++ [vLast]), nOut := nOut, scale := sc } true ctxDup elemDup =
+      .ok (.table (List.zipWith (fun x v => [x, v]) xs (vs ++ [vLast]) ++
+        (if ctxDup.getD elemDup then [[xLast, vLast]] else []))) := by
+  have := rows1d_spec xs (vs ++ [vLast]) xLast vLast vs rfl (by simp [hlen])
+  cases nested <;> cases ctxDup <;> simp [toCsvHistU, Edges.axes, this, bind, Except.bind, pure, Except.pure]
+
+example : toCsvHistU exHistN true none true = .ok (.table [[0, 1], [1, 2], [3, 2]]) :=
+  csv_rows_1d_any true [0, 1] [1] 3 2 rfl 1 none none true
+example : (iterCells exHistN none).toOption.map (fun l => l.map (fun c => (c.edges, c.index))) =
+    some [([(0, 1)], [0]), ([(1, 3)], [1])] := by decide +kernel
+
+/-! ## What `integral` (the scale of a histogram) computes -/
+
+theorem foldl_mul_eq (l : List Q) : ∀ (t : Q), l.foldl (· * ·) t = t * l.foldl (· * ·) 1 := by
+  induction l with
+  | nil => intro t; simp
+  | cons x xs ih =>
+    intro t
+    simp only [List.foldl_cons]
+    rw [ih (t * x), ih (1 * x)]
+    grind
+
+theorem binLengths_volume : ∀ (axes : List (List Q)) (idx : List Nat), InRange axes idx →
+    ∃ l, binLengths axes idx = .ok l ∧ prod l = cellVolume (cellEdgesRef axes idx)
+  | [], [], _ => ⟨[], by simp [binLengths], by simp [prod, cellVolume, cellEdgesRef]⟩
+  | [], _ :: _, h => by simp [InRange] at h
+  | _ :: _, [], _ => ⟨[], by simp [binLengths], by simp [prod, cellVolume, cellEdgesRef]⟩
+  | e :: es, i :: is, h => by
+    obtain ⟨hi, ht⟩ := h
+    obtain ⟨l, hl, hp⟩ := binLengths_volume es is ht
+    have h1 : i + 1 < e.length := by omega
+    have h0 : i < e.length := by omega
+    refine ⟨(e[i + 1] - e[i]) :: l, ?_, ?_⟩
+    · simp [binLengths, List.getElem?_eq_getElem h1, List.getElem?_eq_getElem h0, hl, bind, Except.bind, pure,
+        Except.pure]
+    · simp only [prod, List.foldl_cons, cellEdgesRef, cellVolume, List.getD_eq_getElem?_getD,
+        List.getElem?_eq_getElem h1, List.getElem?_eq_getElem h0, Option.getD_some] at hp ⊢
+      rw [foldl_mul_eq, hp]
+      grind
+
+theorem integralLoop_spec (axes : List (List Q)) : ∀ (l : List (List Nat × Q)) (t : Q),
+    (∀ p ∈ l, InRange axes p.1) →
+    integralLoop axes l t = .ok (t + (l.map (fun p => cellVolume (cellEdgesRef axes p.1) * p.2)).sum)
+  | [], t, _ => by simp [integralLoop]; grind
+  | (ind, c) :: rest, t, h => by
+    obtain ⟨lens, hl, hp⟩ := binLengths_volume axes ind (h (ind, c) List.mem_cons_self)
+    have ih := integralLoop_spec axes rest (t + prod lens * c) (fun p hp' => h p (List.mem_cons_of_mem _ hp'))
+    simp only [integralLoop, hl, bind, Except.bind, ih, List.map_cons, List.sum_cons, hp]
+    congr 1
+    grind
+
+/-- **the scale of a histogram** (`integral`, hence `hist.scale()` of a histogram without a stored scale) is the sum
+over the cells that `iter_bins` yields of (product of the cell's side lengths) × (content), for every well-formed
+histogram of any dimension.  `integralRef` is defined independently of `integral`, from `cells` and `cellEdgesRef`. -/
+theorem integral_spec (h : Hist) (wf : h.WF) :
+    integral h.bins h.edges.axes = .ok (integralRef h.edges.axes h.bins) := by
+  have hs : HasShape (nbinsOf h.edges.axes) h.bins := wf.2
+  have := integralLoop_spec h.edges.axes (cells h.bins) 0 (fun p hp => inRange_of_mem_cells _ _ hs p hp)
+  have h0 : ∀ x : Q, 0 + x = x := fun x => by grind
+  rw [h0] at this
+  simpa [integral, integralRef] using this
+
+/-- `hist.scale()` of a well-formed histogram without a stored scale is that sum, and is stored -/
+theorem hist_scale_value (h : Hist) (wf : h.WF) (hn : h.scale = none) (rc : Bool) :
+    getScale h rc = .ok ({ h with scale := some (integralRef h.edges.axes h.bins) }, integralRef h.edges.axes h.bins) := by
+  simp [getScale, hn, integral_spec h wf, bind, Except.bind, pure, Except.pure]
+
+example : integralRef exHist2.edges.axes exHist2.bins = 10 := by decide +kernel
+example : (getScale exHist2 false).toOption.map (·.2) = some 10 := by decide +kernel
+
+/-! ## The printed number parses back to `millionths` -/
+
+theorem splitDot_append (ds rest : List Char) (h : '.' ∉ ds) : splitDot (ds ++ '.' :: rest) = (ds, rest) := by
+  induction ds with
+  | nil => simp [splitDot]
+  | cons c cs ih =>
+    have hc : c ≠ '.' := fun hc => h (by simp [hc])
+    have := ih (fun hm => h (List.mem_cons_of_mem _ hm))
+    simp [splitDot, hc, this, Prod.map]
+
+theorem dot_not_mem_toDigits (n : Nat) : '.' ∉ Nat.toDigits 10 n := by
+  intro h
+  have := Nat.isDigit_of_mem_toDigits (by omega) (by omega) h
+  simp [Char.isDigit] at this
+
+theorem head_toDigits_ne_minus (n : Nat) : ∀ c rest, Nat.toDigits 10 n = c :: rest → c ≠ '-' := by
+  intro c rest h hc
+  have hm : c ∈ Nat.toDigits 10 n := by rw [h]; simp
+  have := Nat.isDigit_of_mem_toDigits (by omega) (by omega) hm
+  rw [hc] at this
+  simp [Char.isDigit] at this
+
+theorem ofDigitChars_pad (k n : Nat) :
+    Nat.ofDigitChars 10 (List.replicate k '0' ++ Nat.toDigits 10 n) 0 = n := by
+  rw [Nat.ofDigitChars_append, Nat.ofDigitChars_replicate_zero]
+  simp [Nat.ofDigitChars_ten_toDigits]
+
+/-- the characters that `fmtF` prints -/
+theorem fmtF_toList (x : Q) :
+    (fmtF x).toList = (if x < 0 then ['-'] else []) ++ Nat.toDigits 10 (millionths x / 1000000) ++ '.' ::
+      (List.replicate (6 - (Nat.toDigits 10 (millionths x % 1000000)).length) '0' ++
+        Nat.toDigits 10 (millionths x % 1000000)) := by
+  have hl : ∀ n : Nat, n.repr.length = (Nat.toDigits 10 n).length := by
+    intro n; rw [← String.length_toList, Nat.toList_repr]
+  unfold fmtF pad6
+  by_cases hx : x < 0 <;> simp [hx, String.toList_append, Nat.toString_eq_repr, hl]
+
+/-- **"rows … that parse back … within the printed precision"**: reading the printed text of `x` back gives the
+sign of `x` and exactly `millionths x` millionths — which `fmt_precision` places within half a millionth of `|x|`.
+For every rational (every int and finite float). -/
+theorem parse_fmt (x : Q) : parseFixed (fmtF x).toList = (decide (x < 0), millionths x) := by
+  rw [fmtF_toList]
+  have hsplit := splitDot_append (Nat.toDigits 10 (millionths x / 1000000))
+    (List.replicate (6 - (Nat.toDigits 10 (millionths x % 1000000)).length) '0' ++
+      Nat.toDigits 10 (millionths x % 1000000)) (dot_not_mem_toDigits _)
+  have hval : Nat.ofDigitChars 10 (Nat.toDigits 10 (millionths x / 1000000)) 0 * 1000000 +
+      Nat.ofDigitChars 10 (List.replicate (6 - (Nat.toDigits 10 (millionths x % 1000000)).length) '0' ++
+        Nat.toDigits 10 (millionths x % 1000000)) 0 = millionths x := by
+    rw [ofDigitChars_pad, Nat.ofDigitChars_ten_toDigits]
+    have := Nat.div_add_mod (millionths x) 1000000
+    omega
+  by_cases hx : x < 0
+  · simp only [hx, if_true, List.singleton_append, List.cons_append, List.nil_append, parseFixed, stripSign, hsplit,
+      hval, decide_true]
+  · simp only [hx, if_false, List.nil_append, decide_false]
+    cases hd : Nat.toDigits 10 (millionths x / 1000000) with
+    | nil => exact absurd hd Nat.toDigits_ne_nil
+    | cons c rest =>
+      have hc := head_toDigits_ne_minus _ c rest hd
+      rw [hd] at hsplit hval
+      have hss : ∀ r, stripSign (c :: r) = (false, c :: r) := by
+        intro r
+        unfold stripSign
+        split
+        · rename_i heq; simp at heq; exact absurd heq.1 hc
+        · rfl
+      simp only [List.cons_append] at hsplit ⊢
+      simp only [parseFixed, hss, hsplit, hval]
+
+example : parseFixed (fmtF (-5 / 2)).toList = (true, 2500000) ∧ parseFixed (fmtF (1 / 3)).toList = (false, 333333) := by
+  decide +kernel
+
+/-! ## "makes the recomputed scale equal s": true only when the stored scale is not stale -/
+
+/-- the sentence without a side condition -/
+def hist_scale_recomputed_full : Prop :=
+  ∀ (h h' : Hist) (s : Q), setScale h s = .ok h' → (getScale h' true).toOption.map (·.2) = some s
+
+/-- … is false of the code: a histogram whose stored `_scale` is stale (the documented situation "after changing
+(filling) the histogram one must explicitly recompute the scale") is rescaled by `s/stored`, not `s/integral`.
+Witness: edges `[0,1,3]`, bins `[1,2]` (integral 5) with stored scale 1, rescaled to 10: recomputed scale 50.
+`hist_scale_recomputed_partial` is the sentence under the hypothesis that a stored scale is the integral. -/
+theorem hist_scale_recomputed_full_false : ¬ hist_scale_recomputed_full := by
+  intro hf
+  have h1 : ∃ h', setScale { exHist with scale := some 1 } 10 = .ok h' ∧
+      (getScale h' true).toOption.map (·.2) = some 50 := by
+    cases hs : setScale { exHist with scale := some 1 } 10 with
+    | error e =>
+      have : (setScale { exHist with scale := some 1 } 10).toOption.isSome = true := by decide +kernel
+      simp [hs, Except.toOption] at this
+    | ok h' =>
+      refine ⟨h', rfl, ?_⟩
+      have : ((setScale { exHist with scale := some 1 } 10).toOption.bind
+          (fun h' => (getScale h' true).toOption.map (·.2))) = some 50 := by decide +kernel
+      simpa [hs, Except.toOption] using this
+  obtain ⟨h', hs, hr⟩ := h1
+  have := hf _ h' 10 hs
+  rw [hr] at this
+  exact absurd this (by decide +kernel)
+
+/-! ## CSV rows of every valid one- and two-dimensional histogram (link of `csv_rows_*` to `Hist.WF`) -/
+
+theorem hasShape1_form : ∀ (n : Nat) (a : NArr Q), HasShape [n] a → ∃ vals, a = bins1d vals ∧ vals.length = n
+  | _, .leaf _, h => by simp [HasShape] at h
+  | n, .node xs, h => by
+    simp only [HasShape] at h
+    have key : ∀ (l : List (NArr Q)), (∀ x ∈ l, HasShape [] x) → ∃ vals : List Q, l = vals.map .leaf := by
+      intro l
+      induction l with
+      | nil => intro _; exact ⟨[], rfl⟩
+      | cons x l ih =>
+        intro hl
+        obtain ⟨vals, hv⟩ := ih (fun y hy => hl y (List.mem_cons_of_mem _ hy))
+        cases x with
+        | leaf v => exact ⟨v :: vals, by simp [hv]⟩
+        | node _ => have := hl _ List.mem_cons_self; simp [HasShape] at this
+    obtain ⟨vals, hv⟩ := key xs h.2
+    exact ⟨vals, by simp [bins1d, hv], by rw [← h.1, hv]; simp⟩
+
+theorem hasShape2_form (n m : Nat) (a : NArr Q) (h : HasShape [n, m] a) :
+    ∃ vals, a = bins2d vals ∧ vals.length = n ∧ ∀ r ∈ vals, r.length = m := by
+  cases a with
+  | leaf _ => simp [HasShape] at h
+  | node xs =>
+    simp only [HasShape] at h
+    have key : ∀ (l : List (NArr Q)), (∀ x ∈ l, HasShape [m] x) →
+        ∃ vals : List (List Q), l = vals.map bins1d ∧ ∀ r ∈ vals, r.length = m := by
+      intro l
+      induction l with
+      | nil => intro _; exact ⟨[], rfl, by simp⟩
+      | cons x l ih =>
+        intro hl
+        obtain ⟨vals, hv, hr⟩ := ih (fun y hy => hl y (List.mem_cons_of_mem _ hy))
+        obtain ⟨r, hx, hrl⟩ := hasShape1_form m x (hl x List.mem_cons_self)
+        exact ⟨r :: vals, by simp [hv, hx], by
+          intro r' hr'
+          rcases List.mem_cons.1 hr' with rfl | hr'
+          · exact hrl
+          · exact hr r' hr'⟩
+    obtain ⟨vals, hv, hr⟩ := key xs h.2
+    exact ⟨vals, by simp [bins2d, hv], by rw [← h.1, hv]; simp, hr⟩
+
+theorem checkEdges1d_length (e : List Q) (h : checkEdges1d e = .ok ()) : 2 ≤ e.length := by
+  unfold checkEdges1d at h
+  split at h
+  · simp at h
+  · omega
+
+/-- **one row per cell**, for every valid one-dimensional histogram (edges flat or nested in a list): without
+`duplicate_last_bin` the CSV rows are exactly `[lower edge, content]` for the cells of `iter_bins`, in that order -/
+theorem csv_rows_valid_1d (h : Hist) (hv : h.ValidU) (e : List Q) (hax : h.edges.axes = [e]) :
+    toCsvHistU h true none false = .ok (.table ((cells h.bins).map (cellRow h.edges.axes))) := by
+  have hs : HasShape [e.length - 1] h.bins := by
+    have := hv.wf.2; simpa [Hist.nbins, nbinsOf, hax] using this
+  obtain ⟨vals, hb, hvl⟩ := hasShape1_form _ _ hs
+  have hlen : 2 ≤ e.length := by
+    have hc := hv.edges_ok
+    cases hed : h.edges with
+    | flat e' =>
+      rw [hed] at hc hax
+      simp [Edges.axes] at hax
+      subst hax
+      simp only [checkEdgesIncreasing] at hc
+      split at hc
+      · simp at hc
+      · exact checkEdges1d_length _ hc
+    | nested es =>
+      rw [hed] at hc hax
+      simp [Edges.axes] at hax
+      subst hax
+      simp only [checkEdgesIncreasing, List.isEmpty_cons, checkEdgesAxes] at hc
+      simp at hc
+      split at hc
+      · simp at hc
+      · omega
+  have hne : e ≠ [] := by intro h0; rw [h0] at hlen; simp at hlen
+  have hsplit : e = e.dropLast ++ [e.getLast hne] := (List.dropLast_concat_getLast hne).symm
+  have hxl : e.dropLast.length = vals.length := by simp [hvl]
+  have hvne : vals ≠ [] := by
+    intro h0; rw [h0] at hvl; simp at hvl; omega
+  have hr := rows1d_spec e.dropLast vals (e.getLast hne) (vals.getLast hvne) vals.dropLast
+    (List.dropLast_concat_getLast hvne).symm hxl false
+  rw [← hsplit] at hr
+  have hcell := csv_one_row_per_cell_1d e.dropLast vals (e.getLast hne) hxl
+  rw [← hsplit] at hcell
+  simp only [toCsvHistU, hax, hb, hr, bind, Except.bind, pure, Except.pure, Bool.not_true, Bool.false_eq_true, if_false,
+    List.append_nil]
+  rw [hcell]
+
+example : toCsvHistU exHistN true none false = .ok (.table ((cells exHistN.bins).map (cellRow exHistN.edges.axes))) :=
+  csv_rows_valid_1d exHistN ⟨⟨by simp [exHistN, Edges.axes], by simp [exHistN, exHist, Hist.nbins, nbinsOf, Edges.axes, HasShape]⟩,
+    ok_of_toOption _ _ (by decide +kernel)⟩ [0, 1, 3] rfl
+
+theorem checkEdgesAxes_length : ∀ (es : List (List Q)), checkEdgesAxes es = .ok () → ∀ e ∈ es, 2 ≤ e.length
+  | [], _ => by simp
+  | a :: rest, h => by
+    simp only [checkEdgesAxes] at h
+    split at h
+    · simp at h
+    · rename_i hl
+      cases hc : checkEdges1d a with
+      | error er => simp [hc, bind, Except.bind] at h
+      | ok u =>
+        simp [hc, bind, Except.bind] at h
+        intro e he
+        rcases List.mem_cons.1 he with rfl | he
+        · omega
+        · exact checkEdgesAxes_length rest h e he
+
+/-- **one row per cell**, for every valid two-dimensional histogram: without `duplicate_last_bin` the CSV rows are
+exactly `[lower x edge, lower y edge, content]` for the cells of `iter_bins`, in that order -/
+theorem csv_rows_valid_2d (h : Hist) (hv : h.ValidU) (ex ey : List Q) (hed : h.edges = .nested [ex, ey]) :
+    toCsvHistU h true none false = .ok (.table ((cells h.bins).map (cellRow h.edges.axes))) := by
+  have hax : h.edges.axes = [ex, ey] := by simp [hed, Edges.axes]
+  have hs : HasShape [ex.length - 1, ey.length - 1] h.bins := by
+    have := hv.wf.2; simpa [Hist.nbins, nbinsOf, hax] using this
+  obtain ⟨vals, hb, hvl, hvr⟩ := hasShape2_form _ _ _ hs
+  have hc := hv.edges_ok
+  rw [hed] at hc
+  simp only [checkEdgesIncreasing, List.isEmpty_cons, Bool.false_eq_true, if_false] at hc
+  have hlx : 2 ≤ ex.length := checkEdgesAxes_length _ hc ex (by simp)
+  have hly : 2 ≤ ey.length := checkEdgesAxes_length _ hc ey (by simp)
+  have hnx : ex ≠ [] := by intro h0; rw [h0] at hlx; simp at hlx
+  have hny : ey ≠ [] := by intro h0; rw [h0] at hly; simp at hly
+  have hsx : ex = ex.dropLast ++ [ex.getLast hnx] := (List.dropLast_concat_getLast hnx).symm
+  have hsy : ey = ey.dropLast ++ [ey.getLast hny] := (List.dropLast_concat_getLast hny).symm
+  have hxl : ex.dropLast.length = vals.length := by simp [hvl]
+  have hvne : vals ≠ [] := by intro h0; rw [h0] at hvl; simp at hvl; omega
+  have hyne : ey.dropLast ≠ [] := by
+    intro h0; have := congrArg List.length h0; simp at this; omega
+  have hrows : ∀ r ∈ vals, r.length = ey.dropLast.length := by
+    intro r hr; rw [hvr r hr]; simp
+  have hr := rows2d_spec ex.dropLast ey.dropLast (ex.getLast hnx) (ey.getLast hny) vals vals.dropLast (vals.getLast hvne)
+    (List.dropLast_concat_getLast hvne).symm hxl hyne hrows false
+  rw [← hsx, ← hsy] at hr
+  have hcell := csv_one_row_per_cell_2d ex.dropLast ey.dropLast (ex.getLast hnx) (ey.getLast hny) vals hxl hrows
+  rw [← hsx, ← hsy] at hcell
+  simp only [toCsvHistU, hax, hb, hr, bind, Except.bind, pure, Except.pure, Bool.not_true, Bool.false_eq_true, if_false,
+    List.append_nil]
+  rw [hcell]
+
+example : toCsvHistU exHist2 true none false = .ok (.table ((cells exHist2.bins).map (cellRow exHist2.edges.axes))) :=
+  csv_rows_valid_2d exHist2 ⟨exHist2_wf, ok_of_toOption _ _ (by decide +kernel)⟩ [0, 1, 3] [0, 2] rfl
+
+/-! ## Non-vacuity: the hypotheses of the theorems with hypotheses are satisfiable -/
+
+/-- the trivial interpolation guess `ind_min` is within bounds -/
+theorem guessOK_lo : C06.GuessOK (fun lo _ => (lo : Int)) := by
+  intro lo hi h
+  constructor <;> simp <;> omega
+
+example : ∃ g, mkGraph [[1, 2], [3, 4], [1, 1]] (.tuple ["x".toList, "y".toList, "error_y_low".toList]) (some 2) = .ok g ∧
+    (graphSetScale g 3).toOption.map (·.coords) = some [[1, 2], [9/2, 6], [3/2, 3/2]] := by
+  obtain ⟨g, hg, _⟩ := graph_valid_naming [[1, 2], [3, 4], [1, 1]] ["x".toList, "y".toList] ["error_y_low".toList]
+    (some 2) (by simp) (by decide) (by
+      intro f hf
+      simp at hf
+      subst hf
+      exact ⟨by decide, "y".toList, by decide⟩) (by decide) (by decide) (by decide)
+  obtain ⟨g', last, hs, _, _, _, _, _, hcols⟩ := graph_scale _ _ _ g hg 2 3 rfl (by decide +kernel)
+  refine ⟨g, hg, ?_⟩
+  have h1 : (mkGraph [[1, 2], [3, 4], [1, 1]] (.tuple ["x".toList, "y".toList, "error_y_low".toList]) (some 2)).toOption.bind
+      (fun g => (graphSetScale g 3).toOption.map (·.coords)) = some [[1, 2], [9/2, 6], [3/2, 3/2]] := by decide +kernel
+  simpa [hg, Except.toOption] using h1
+
+example : ∃ I, getScale exHist2 false = .ok ({ exHist2 with scale := some I }, I) ∧ (I ≠ 0 → ∃ h', setScale exHist2 7 = .ok h') := by
+  obtain ⟨I, h1, _, h3⟩ := hist_scale_total exHist2 exHist2_wf 7
+  exact ⟨I, h1, h3⟩
+example : ∃ h', setNevents exHist 6 true = .ok h' := set_nevents_total exHist exHist_wf 6 true (by decide +kernel)
+example : ∀ c, add exHist { exHist with bins := .node [.leaf 10, .leaf 20] } 2 ⟨0, 0⟩ = .ok c →
+    get? c.bins [1] = some (.leaf (2 + 20 * 2)) ∧ exHist.edges = ({ exHist with bins := .node [.leaf 10, .leaf 20] } : Hist).edges :=
+  fun c h => ⟨add_cell _ _ c 2 _ h [1] 2 20 rfl rfl,
+    add_only_equal_edges _ _ c 2 h (by simp [exHist, Edges.NonEmptyAxes, Edges.axes]) (by simp [exHist, Edges.NonEmptyAxes, Edges.axes])⟩
+example : (add exHist { exHist with bins := .node [.leaf 10, .leaf 20] } 2 ⟨0, 0⟩).toOption.isSome = true := by decide +kernel
+example : scaleTo .selectHist [.other, .other] false false = ([.other, .other], some .lenaValueError) :=
+  (scale_to_selector .selectHist (by intro s h; cases h) [.other, .other] false false).1 rfl
+example : coordRangeAxis (fun lo _ => (lo : Int)) [0, 1, 2, 3, 4] (1/2, 5/2) = .ok (some (0, 2)) := by
+  have := coord_range_axis_selects _ guessOK_lo [0, 1, 2, 3, 4] (by decide +kernel) (by simp) (1/2) (5/2)
+  rw [this]
+  decide +kernel
+example : getBinEdges (.tuple [1, 0]) exHist2.edges = .ok (.pairs [(1, 3), (0, 2)]) :=
+  get_bin_edges_nested [[0, 1, 3], [0, 2]] [1, 0] (by simp [InRange])
+example : getBinEdges (.num 1) (.flat [0, 1, 3]) = .ok (.pair 1 3) := (get_bin_edges_flat [0, 1, 3] 1 [] (by simp)).1
+example : iterCellsCoord (fun _ lo _ => (lo : Int)) exHist4 false (.many [(1/2, 5/2)]) = .ok [] ∨
+    ∃ r rs, ValidRanges exHist4.edges.axes (r :: rs) ∧ _ :=
+  iter_cells_coord_ranges _ (fun _ => guessOK_lo) exHist4
+    ⟨by simp [exHist4, Edges.axes], by simp [exHist4, Hist.nbins, nbinsOf, Edges.axes, HasShape]⟩
+    (by simp [exHist4, Edges.NonEmptyAxes, Edges.axes]) (1/2, 5/2) [] (by simp [exHist4, Edges.axes])
 
 end Lena.C12
